@@ -4,6 +4,7 @@ from __future__ import annotations
 
 import itertools
 import math
+import warnings
 from fractions import Fraction
 
 import numpy as np
@@ -50,7 +51,7 @@ class _FreshProxy:
 M = _FreshProxy(_M)
 S = _FreshProxy(_S)
 
-from ..exact import Pure, call, case_rng, describe, present_nd
+from ..exact import Pure, call, case_rng, describe, present_nd, strict_fp_call
 
 RULE = ("every constructor exported by toqito.states / toqito.matrices (all have a Lean model since the deepening pass) on dims 2..5, qubit counts 1..5 (0..5 for hadamard), all index "
         "pairs, all accepted argument forms (int/str/list, sparse flag, coefficient vectors with rational norm, the same integer coefficient vectors of ghz / w_state multiplied by 2^e for e in -400..400 "
@@ -63,7 +64,11 @@ RULE = ("every constructor exported by toqito.states / toqito.matrices (all have
         "(1/sqrt(n) and roots of unity are not floats). Identities on the implementation's arrays: 1e-12, invariance under exact rational "
         "unitaries evaluated in integer arithmetic on the exact dyadic value of the returned floats. "
         "The few array-like arguments (coefficient vectors of w_state / ghz as list and as ndarray in C / strided layout with int64 or float64 dtype, alpha lists of "
-        "werner, dim of horodecki as list / ndarray, mat_params of chessboard, index lists of pauli) are compared with a deep snapshot after the call.")
+        "werner, dim of horodecki as list / ndarray, mat_params of chessboard, index lists of pauli) are compared with a deep snapshot after the call. "
+        "strict-fp: every constructor at boundary parameters (werner / isotropic at the interval end points and thresholds, horodecki(0), (1), gisin at lambda in {0, 1} and theta in "
+        "{0, pi/2, pi}, ghz / w_state with zero coefficients (not the all-zero vector, which the code normalises to NaN), dicke(n, 0), (n, n), breuer / chessboard / pusey_barrett_rudolph end points, extreme indices of the "
+        "indexed families) is evaluated a second time with NumPy's error state set to raise for invalid / divide / overflow (harness.exact.strict_fp_call) and must give the outcome of the "
+        "default state (same shape, dtype and bitwise equal entries, or the same exception class); no constructor takes two array arguments, so there is no same-object-twice call.")
 ASSUMPTIONS = [
     "roots of unity: the harness evaluates the exponent model with exp(2*pi*i*k/d) in float64 (error <= 2 ulp) and compares within 1e-12",
     "PPT verdicts: numpy.linalg.eigvalsh on the harness's own partial transpose; verdicts are only asserted at distance >= 1e-6 (in alpha) from the threshold, "
@@ -1275,9 +1280,134 @@ def check_misc(k: K):
 
 # ------------------------------------------------------------------------------------------------
 
+def strict_calls():
+    """every constructor at boundary parameters (interval end points, zero coefficients, extreme indices): (name, function, args, kwargs)"""
+    pi = math.pi
+    c = []
+    A = lambda n, f, *a, **k: c.append((n, f, a, k))
+    for d in (2, 3, 4):
+        for al in (0, 1, -1, 0.5, 1 / d, -1 / d):
+            A("werner", _S.werner, d, al)
+        for al in (0, 1, 1 / (d + 1), -1 / (d * d - 1)):
+            A("isotropic", _S.isotropic, d, al)
+        A("max_entangled", _S.max_entangled, d)
+        A("max_entangled", _S.max_entangled, d, True)
+        A("max_entangled", _S.max_entangled, d, False, False)
+        A("max_mixed", _S.max_mixed, d)
+        A("max_mixed", _S.max_mixed, d, True)
+        A("mutually_unbiased_basis", _S.mutually_unbiased_basis, d)
+        A("singlet", _S.singlet, d)
+        A("basis", _S.basis, d, 0)
+        A("basis", _S.basis, d, d - 1)
+        for (a, b) in ((0, 0), (d - 1, d - 1), (0, d - 1), (d - 1, 0)):
+            A("gen_bell", _S.gen_bell, a, b, d)
+            A("gen_pauli", _M.gen_pauli, a, b, d)
+            A("gen_gell_mann", _M.gen_gell_mann, a, b, d)
+        A("gen_pauli_x", _M.gen_pauli_x, d)
+        A("gen_pauli_z", _M.gen_pauli_z, d)
+        A("fourier", _M.fourier, d)
+        A("standard_basis", _M.standard_basis, d)
+        A("standard_basis", _M.standard_basis, d, True)
+        for kk in (0, 1, d):
+            A("cyclic_permutation_matrix", _M.cyclic_permutation_matrix, d, kk)
+    A("werner", _S.werner, 3, [0, 0, 0, 0, 0])
+    A("werner", _S.werner, 3, [1, 0, 0, 0, 0])
+    A("werner", _S.werner, 2, [0])
+    for a in (0, 1, 0.5, 0.0, 1.0):
+        A("horodecki", _S.horodecki, a)
+        A("horodecki", _S.horodecki, a, [3, 3])
+        A("horodecki", _S.horodecki, a, [2, 4])
+    for lam in (0, 1, 0.5):
+        for th in (0, pi / 2, pi, pi / 4):
+            A("gisin", _S.gisin, lam, th)
+    for (d, n, co) in ((2, 3, [0, 1]), (2, 3, [1, 0]), (3, 2, [0, 0, 1]), (2, 3, np.array([0.0, 1.0])), (3, 3, [0, 1, 0]), (2, 2, [0.0, 1.0]), (2, 4, [1, -1])):
+        A("ghz", _S.ghz, d, n, co)
+    for (d, n) in ((2, 2), (2, 5), (5, 2), (3, 3)):
+        A("ghz", _S.ghz, d, n)
+    for n, co in ((3, [0, 0, 1]), (3, [1, 0, 0]), (2, [0, 1]), (4, [0, 1, 0, 1]), (3, np.array([0.0, 0.0, 1.0])), (3, [0.0, 1.0, 0.0]), (2, [1, -1])):
+        A("w_state", _S.w_state, n, co)
+    for n in (2, 3, 5):
+        A("w_state", _S.w_state, n)
+    for n in (1, 2, 3, 5):
+        for kk in (0, n, 1):
+            A("dicke", _S.dicke, n, kk)
+            A("dicke", _S.dicke, n, kk, True)
+    for d in (2, 4):
+        for lam in (0, 1, 0.5, -1):
+            A("breuer", _S.breuer, d, lam)
+    for (d, pv) in ((2, 1), (2, 2), (4, 1), (4, 2)):
+        A("brauer", _S.brauer, d, pv)
+    # not called (the unchanged code divides 0/0 there: NaN state resp. ZeroDivisionError in the default state, FloatingPointError under StrictFP): the all-zero coefficient
+    # vector of ghz / w_state, chessboard with mat_params[5] = 0 and derived s / t, chessboard of the all-zero parameter vector with s = t = 0
+    for mp in ([0, 0, 0, 0, 0, 0], [1, 2, 3, 4, 5, 6], [1, 0, 0, 0, 0, 0], [0, 0, 0, 0, 0, 1], [1, 1, 1, 1, 1, 1], [1, 2, 0, 4, 5, 6], [1, 2, 3, 0, 5, 6]):
+        if mp[5] != 0:
+            A("chessboard", _S.chessboard, mp)
+        if any(mp):
+            A("chessboard", _S.chessboard, mp, 0, 0)
+        A("chessboard", _S.chessboard, mp, 7, 8)
+    for n in (1, 2):
+        for th in (0, pi / 2, pi / 4, pi):
+            A("pusey_barrett_rudolph", _S.pusey_barrett_rudolph, n, th)
+    for i in range(4):
+        A("bell", _S.bell, i)
+        A("pauli", _M.pauli, i)
+        A("pauli", _M.pauli, i, True)
+    for i in (0, 4):
+        A("tile", _S.tile, i)
+    for i in (0, 8):
+        A("domino", _S.domino, i)
+    for i in (0, 8):
+        A("gell_mann", _M.gell_mann, i)
+        A("gell_mann", _M.gell_mann, i, True)
+    for n in (0, 1, 3):
+        A("hadamard", _M.hadamard, n)
+    A("pauli", _M.pauli, "I")
+    A("pauli", _M.pauli, [0, 3])
+    A("pauli", _M.pauli, [0, 0])
+    A("trine", _S.trine)
+    A("bb84", _S.bb84)
+    A("cnot", _M.cnot)
+    A("cyclic_permutation_matrix", _M.cyclic_permutation_matrix, 1, 1)
+    A("fourier", _M.fourier, 1)
+    return c
+
+
+def check_strict_fp(k: K):
+    """every boundary call once in the default floating-point error state and once with invalid / divide / overflow set to raise: identical outcome"""
+    def canon(v):
+        if isinstance(v, (list, tuple)):
+            return [canon(x) for x in v]
+        return dense(v) if hasattr(v, "shape") else v
+
+    def same(a, b):
+        if isinstance(a, list) or isinstance(b, list):
+            return isinstance(a, list) and isinstance(b, list) and len(a) == len(b) and all(same(x, y) for x, y in zip(a, b))
+        a, b = np.asarray(a), np.asarray(b)
+        return a.shape == b.shape and a.dtype == b.dtype and np.array_equal(a, b, equal_nan=True)
+
+    def cp(x):
+        return x.copy() if isinstance(x, np.ndarray) else list(x) if isinstance(x, list) else x
+
+    for name, f, a, kw in strict_calls():
+        args = repr((a, kw))[:200]
+        with warnings.catch_warnings():
+            warnings.simplefilter("ignore")
+            try:
+                d0 = ("ok", canon(f(*[cp(x) for x in a], **kw)))
+            except Exception as e:  # the outcome of the default state
+                d0 = ("raise", type(e).__name__)
+        st, v = strict_fp_call(f, *[cp(x) for x in a], **kw)
+        d1 = ("ok", canon(v)) if st == "ok" else ("raise", v.split(":")[0])
+        k.case(name + "/strict-fp", args, True, f"strict-fp/{name}")
+        if d0[0] != d1[0] or (d0[0] == "raise" and d0[1] != d1[1]) or (d0[0] == "ok" and not same(d0[1], d1[1])):
+            what = ("value depends on NumPy's floating-point error state: the default state returns a value, invalid/divide/overflow='raise' gives " + str(v)[:160]
+                    if (st == "raise" and d0[0] == "ok") else f"outcome under StrictFP differs from the default state ({d0[0]} vs {st})")
+            k.bad(what, name, args, kind="strict-fp", theorem="(a constructor is a function of its arguments)")
+
+
 SECTIONS = [check_clock_shift_fourier, check_gen_pauli, check_pauli, check_gell_mann, check_gen_gell_mann, check_hadamard, check_cnot_cyclic_basis,
             check_basis_bell_maxent, check_ghz, check_w, check_dicke, check_tile_domino, check_gen_bell, check_werner, check_isotropic,
-            check_horodecki, check_mub, check_misc]
+            check_horodecki, check_mub, check_misc, check_strict_fp]
 
 
 def run(ctx, model_ok=True):
@@ -1316,5 +1446,7 @@ def replay(ctx, rec):
         "bb84": check_misc, "trine": check_misc, "gisin": check_misc, "breuer": check_misc, "chessboard": check_misc, "brauer": check_misc,
         "pusey_barrett_rudolph": check_misc,
     }.get(fn)
+    if rec.get("kind") == "strict-fp":
+        owner = check_strict_fp
     for sec in ([owner] if owner else SECTIONS):
         sec(k)
